@@ -5,6 +5,7 @@
 (*  Shapes (selected by the set Shapes):                                         *)
 (*   "leaf"  every leaf alone            "a1" [x]          "a2" [x y]  x,y leaves *)
 (*   "a3r"   [x y z] over Reps           "a3" [x y z] over all leaves             *)
+(*   "a4r"   [w x y z] over Reps                                                  *)
 (*   "d1"    <<k x>> k in Keys, x leaf   "d2r" <<k1 x k2 y>> over Reps, 3 key pairs*)
 (*   "d2"    <<k1 x k2 y>> over leaves, all key pairs                             *)
 (*   "n2r"   [x C y] / <<k C k2 x>> with C a depth-1 composite, x,y in Reps+none *)
@@ -59,6 +60,7 @@ Init ==
   \/ "a2" \in Shapes /\ \E i \in Mine(LI), j \in LI : t = Arr(<<Leaves[i], Leaves[j]>>)
   \/ "a3r" \in Shapes /\ \E i \in Mine(RI), j \in RI, n \in RI : t = Arr(<<Reps[i], Reps[j], Reps[n]>>)
   \/ "a3" \in Shapes /\ \E i \in Mine(LI), j \in LI, n \in LI : t = Arr(<<Leaves[i], Leaves[j], Leaves[n]>>)
+  \/ "a4r" \in Shapes /\ \E i \in Mine(RI), j \in RI, n \in RI, m \in RI : t = Arr(<<Reps[i], Reps[j], Reps[n], Reps[m]>>)
   \/ "d1" \in Shapes /\ \E a \in 1..Len(Keys), i \in Mine(LI) : t = Dict(<<En(Keys[a], Leaves[i])>>)
   \/ "d2r" \in Shapes /\ \E p \in 1..Len(KeyPairsR), i \in Mine(RI), j \in RI :
         t = Dict(<<En(Keys[KeyPairsR[p][1]], Reps[i]), En(Keys[KeyPairsR[p][2]], Reps[j])>>)
